@@ -129,6 +129,52 @@ CHECKS["C05"] = dict(
     note=_WIRE_NOTE, technique="TLA+-enumerated case space + path-equivalence checks on the real codec",
     design_ref="DESIGN.md §3.3, §4 C05")
 
+_CQL_NOTE = ("Trusted: CqlValue.tla's transcription of native_protocol_v5.spec section 6 (and v2 section 6) and of the accepted-representation "
+             "table of datacodec/doc.go; math/big in the harness only to materialise and compare values. Contents beyond the boundary "
+             "classes (random values, deeper type trees) are not yet covered.")
+CHECKS["C11"] = dict(
+    level="exploration",
+    text="CqlValue.tla models integers exactly (sign + bit list, since TLC integers are 32-bit) and enumerates CQL type x accepted Go "
+         "representation x boundary value, plus duration / decimal / scalar tables and collections / tuples / UDTs with nulls; each case is "
+         "encoded by the real codec, decoded into the same representation and into *interface{}, and compared with the value and the "
+         "preferred type the specification names.",
+    note=_CQL_NOTE, technique="TLA+-enumerated case space with exact integer arithmetic + round trip through the real codecs",
+    design_ref="DESIGN.md §3.8, §4 C11")
+CHECKS["C12"] = dict(
+    level="exploration",
+    text="The expected bytes of every case are computed by TLC from the TLA+ transcription of the serialization formats (fixed-width two's "
+         "complement, minimal varint checked against the document's own example table as ASSUMEs, decimal, zig-zag vint duration, date "
+         "offset 2^31, 2- vs 4-byte collection framing, null element = -1, tuple/UDT framing); the real Encode must emit exactly those "
+         "bytes and the real Decode of them must give the value denoted.",
+    note=_CQL_NOTE, technique="byte-exact vectors computed by TLC from a TLA+ transcription of the serialization formats",
+    design_ref="DESIGN.md §3.8, §4 C12")
+CHECKS["C13"] = dict(
+    level="exploration",
+    text="For every (CQL integer type, Go numeric representation, boundary value) pair in both directions the verdict ok(value) / error is "
+         "derived in TLA+ from exact range predicates; TLC also checks those predicates are intervals, so the verdict between two "
+         "neighbouring boundaries cannot differ. The real Encode/Decode must deliver exactly the same mathematical value or fail; also "
+         "float64->float32 narrowing and 32-bit duration components.",
+    note=_CQL_NOTE, technique="TLA+ range predicates (exact bit-list integers) evaluated by TLC + comparison with the real conversions",
+    design_ref="DESIGN.md §3.8, §4 C13")
+CHECKS["C14"] = dict(
+    level="exploration",
+    text="NullReps in CqlValue.tla transcribes which Go representations each CQL type accepts; for every (type, representation) the real "
+         "codec must encode untyped nil and the typed nil pointer/slice as NULL without error and decode NULL into a pre-filled destination "
+         "reporting wasNull and zeroing it; null elements at every position of list/set/map/tuple/UDT must survive the round trip with "
+         "the bytes TLC prescribes, and protocol-v2 collections must refuse them.",
+    note=_CQL_NOTE, technique="TLA+-enumerated representation table and null positions + the real codecs",
+    design_ref="DESIGN.md §3.8, §4 C14")
+CHECKS["C17"] = dict(
+    level="exploration",
+    text="Heap.tla defines Equal and Independent on object graphs (nodes with memory regions, slice backing regions with capacity) and TLC "
+         "checks on all small heaps that Independent holds exactly when no single mutation through one root is observable through the "
+         "other. The harness scans the generated deep-copy files for every type with a DeepCopy method (64 types), builds values that "
+         "populate every field, calls the real DeepCopy, mutates every reachable location in both directions, and records heap "
+         "snapshots that TLC judges with the same predicates (catches aliasing into spare capacity that mutation tests cannot see).",
+    note="Trusted: the reflective snapshot walker (reflect+unsafe) and the region renumbering; values are generated, not exhaustive.",
+    technique="TLA+ heap predicates (small-scope lemma by TLC) + trace validation of real heap snapshots + mutation testing",
+    design_ref="DESIGN.md §3.9, §4 C17")
+
 NOT_YET = {}
 
 
